@@ -389,9 +389,15 @@ def scan_range_general(m, f, loop, H):
         # the declaration that is in force when the loop is entered: outside the loop (a same-named copy made for an
         # inlined helper inside the body is another object), or in the for-initialiser
         found = None
+        if loop["kind"] == "ForStmt":
+            for d in walk(kids(loop)[0]):
+                if d["kind"] == "VarDecl" and d.get("name") == nm and kids(d):
+                    return d
         for d in walk(f.body):
+            if d is loop:
+                break                         # declarations after the loop (a later loop's own variable) are other objects
             if d["kind"] == "VarDecl" and d.get("name") == nm and kids(d):
-                if id(d) in inside and not (loop["kind"] == "ForStmt" and any(y is d for y in walk(kids(loop)[0]))):
+                if id(d) in inside:
                     continue
                 found = d
         return found
@@ -438,6 +444,7 @@ def scan_range_general(m, f, loop, H):
             cursor = cursor or y["ref"]["name"]
     if cursor is None or guard is None:
         raise AnalysisBroken("%s: heap scan without a recognisable slot cursor / guard" % f.name)
+    scan_range_general.last_cursor = cursor
     cd = decl_of(cursor)
     if cd is None:
         raise AnalysisBroken("%s: the slot cursor '%s' has no initial value" % (f.name, cursor))
